@@ -597,4 +597,5 @@ def run(ctx):
     from props import C05_queue
     C05_queue.run(ctx)
     C05_queue.round4_searches(ctx)
+    C05_queue.round6_searches(ctx)
     ctx.notes.append("per class: symbolic obligations (all parameter values) for dagger, dagger∘controlled_by, controlled_by(1,2), on_qubits, and the same after a parameter update; numeric search on the real methods incl. 3 controls and random relabellings; random circuits for invert/copy/+/on_qubits")
